@@ -78,6 +78,8 @@ struct DynamicSubject : Subject {
     using VM = eb::ValueMap<V>;
     std::vector<K> keys;
     std::unique_ptr<Dyn> d;
+    using DynIt = decltype(std::declval<const Dyn &>().begin());
+    std::unique_ptr<DynIt> shared_it; ///< an iterator advanced by the constructing thread; readers copy it and advance their copies
     DynamicSubject(const std::vector<K> &data, uint64_t seed) {
         Rng r(seed);
         std::vector<std::pair<K, V>> bulk;
@@ -91,11 +93,24 @@ struct DynamicSubject : Subject {
         for (size_t i = 0; i < bulk.size(); i += 9) d->insert_or_assign(bulk[i].first, VM::make(id++));
         for (auto &kv : bulk) keys.push_back(kv.first);
         if (keys.empty()) keys.push_back(K(1));
+        {
+            const Dyn &cd = *d;
+            shared_it.reset(new DynIt(cd.lower_bound(keys[keys.size() / 3])));
+            auto end = cd.end();
+            for (int i = 0; i < 3 && *shared_it != end; ++i) ++*shared_it;
+        }
     }
     uint64_t exec(uint64_t s) override {
         K k = keys[s % keys.size()];
         if ((s >> 20) % 3 == 0 && !is_reserved(K(k + 1))) k = K(k + 1); // never the reserved maximum
-        switch ((s >> 32) % 5) {
+        switch ((s >> 32) % 6) {
+            case 5: { // a private copy of the shared, already advanced iterator, walked a few steps and dropped
+                DynIt it(*shared_it);
+                uint64_t h = 13;
+                auto end = d->end();
+                for (int i = 0; i < 5 && it != end; ++i) { h = h * 1000003 + VM::digest(it->second); step_yield(); ++it; }
+                return h;
+            }
             case 0: { auto it = d->find(k); return it == d->end() ? 1 : VM::digest(it->second) * 31 + 2; }
             case 1: return d->count(k) + 3;
             case 2: { // lower_bound + iteration
